@@ -148,6 +148,74 @@ static void c12TecmpDerived(W& w)
         }
 }
 
+// C12 for the variable-length sections of the two status payloads: images laid out by hand from the protocol layout (16-bit
+// big-endian length prefix, strings NUL-terminated and padded to even, stream ids padded to even) are read through the typed
+// getters; one section at a time takes the lengths around the byte / sign boundaries of its prefix
+static void c12Sections(W& w)
+{
+    const size_t lens[] = {0, 1, 2, 3, 124, 125, 126, 127, 128, 200, 252, 253, 254, 255, 256, 382, 383, 384, 1000, 32766, 32767, 32768};
+    for (int sec = 0; sec < 5; ++sec)
+        for (size_t len : lens)
+        {
+            auto desc = [&] { return ofmt("k=c12sec;cls=cm;sec=%d;len=%zu", sec, len); };
+            if (!w.begin_case(desc))
+                continue;
+            ref::CmF f;
+            f.uptime = 0x0102030405060708ull;
+            std::string str[4];
+            for (int i = 0; i < 4; ++i)
+            {
+                str[i] = std::string(i == sec ? len : (size_t) (i + 1), (char) ('a' + i));
+                for (size_t q = 0; q < str[i].size(); ++q)
+                    str[i][q] = (char) ('a' + (q + i) % 26);
+                f.s[i] = ref::strSection(str[i]);
+            }
+            size_t vlen = sec == 4 ? len : 3;
+            f.s[4].declared = (uint16_t) vlen;
+            f.s[4].bytes = bgImage(vlen, 3);
+            Bytes img = ref::cmPayload(f);
+            A::CaptureModulePayload p(img.data(), img.size());
+            std::string_view got[4] = {p.getDeviceDescription(), p.getSerialNumber(), p.getHardwareVersion(), p.getSoftwareVersion()};
+            const char* names[4] = {"getDeviceDescription", "getSerialNumber", "getHardwareVersion", "getSoftwareVersion"};
+            for (int i = 0; i < 4; ++i)
+                if (std::string(got[i]) != str[i])
+                    w.fail(std::string("layout:raw-read-differs-from-wire-value:CaptureModulePayload::") + names[i],
+                           ofmt("section %d holds %zu characters (length prefix %u), the getter returns %zu", i, str[i].size(), f.s[i].declared, got[i].size()));
+            if (p.getVendorDataLength() != vlen)
+                w.fail("layout:raw-read-differs-from-wire-value:CaptureModulePayload::getVendorDataLength", ofmt("length prefix %zu, getter %u", vlen, p.getVendorDataLength()));
+            else if (vlen && (p.getVendorData() != p.getRawPayload() + (img.size() - vlen) || memcmp(p.getVendorData(), f.s[4].bytes.data(), vlen) != 0))
+                w.fail("layout:raw-read-differs-from-wire-value:CaptureModulePayload::getVendorData", "vendor data view is not the last section of the image");
+            w.add(mc::C_TRACES, 1);
+            w.add(mc::C_TRANS, 1);
+            w.outcome(mc::mix(sec, len));
+        }
+    for (int sec = 0; sec < 2; ++sec)
+        for (size_t len : lens)
+        {
+            auto desc = [&] { return ofmt("k=c12sec;cls=if;sec=%d;len=%zu", sec, len); };
+            if (!w.begin_case(desc))
+                continue;
+            ref::IfF f;
+            f.ifid = 0x01020304;
+            size_t sc = sec == 0 ? len : 3, vl = sec == 1 ? len : 5;
+            f.streamDeclared = (uint16_t) sc;
+            f.streams = bgImage(sc, 3);
+            if (sc % 2)
+                f.streams.push_back(0);
+            f.vendorDeclared = (uint16_t) vl;
+            f.vendor = bgImage(vl, 2);
+            Bytes img = ref::ifPayload(f);
+            A::InterfacePayload p(img.data(), img.size());
+            if (p.getStreamIdsCount() != sc || (sc && memcmp(p.getStreamIds(), f.streams.data(), sc) != 0))
+                w.fail("layout:raw-read-differs-from-wire-value:InterfacePayload::getStreamIds", ofmt("%zu stream ids on the wire, getter reports %u", sc, p.getStreamIdsCount()));
+            if (p.getVendorDataLength() != vl || (vl && memcmp(p.getVendorData(), f.vendor.data(), vl) != 0))
+                w.fail("layout:raw-read-differs-from-wire-value:InterfacePayload::getVendorData", ofmt("%zu vendor bytes on the wire, getter reports %u", vl, p.getVendorDataLength()));
+            w.add(mc::C_TRACES, 1);
+            w.add(mc::C_TRANS, 1);
+            w.outcome(mc::mix(10 + sec, len));
+        }
+}
+
 // C12 for Packet: the two serialisers against hand-laid-out images
 static void c12Packet(W& w)
 {
@@ -349,13 +417,18 @@ int main(int argc, char** argv)
         else
             run.rule = "class x field x value: (a) API write into a default object must equal the default image with the value laid out big-endian at the table's offset/bit "
                        "position, (b) the value laid out by hand into zero / ones / counting images must be read back by the getter, (c) reserved bytes/bits zero in default "
-                       "objects, (d) header sizes; Packet::getRawCmpHeader / getRawMessageHeader against hand-laid-out images for 5 message types; layout table written from "
+                       "objects, (d) header sizes; Packet::getRawCmpHeader / getRawMessageHeader against hand-laid-out images for 5 message types; the length-prefixed sections of the two status payloads laid out by hand at 22 lengths around the byte / sign boundaries of the prefix; layout table written from "
                        "the protocol layouts (DESIGN.md Appendix A); distinct = distinct (class, field, population count of the value) combinations executed";
         run.replay_case = [prop](W& w, const std::string& cs) {
             auto kv = mc::kv_parse(cs);
             if (kv["k"] == "c12tecmp")
             {
                 c12TecmpDerived(w);
+                return;
+            }
+            if (kv["k"] == "c12sec")
+            {
+                c12Sections(w);
                 return;
             }
             if (kv["k"] == "c11mask")
@@ -410,6 +483,7 @@ int main(int argc, char** argv)
             run.round("class level: default images, reserved bits, header sizes", classes.size(), [&](W& w, uint64_t o) { classes[o].runClass(w); });
             run.round("Packet serialisers against hand-laid-out images", 1, [&](W& w, uint64_t) { c12Packet(w); });
             run.round("derived TECMP accessors (voltage, version strings) and TECMP::LinPayload::setData", 1, [&](W& w, uint64_t) { c12TecmpDerived(w); });
+            run.round("variable-length sections of the capture-module / interface status payloads: hand-laid-out images read through the getters", 1, [&](W& w, uint64_t) { c12Sections(w); });
         }
         (void) thorough;
         return run.finish();
